@@ -8,6 +8,9 @@ use std::hash::{Hash, Hasher};
 /// Token identifying an element instance in models: (id, serial); serial 0 = type has none.
 pub type Tok = (u32, u32);
 
+/// `entry_ref` entry of a simulator map.
+pub type ERef<'a, 'b, K, V> = hashbrown::hash_map::EntryRef<'a, 'b, K, <K as KeyT>::View, V, crate::plan::SimBuildHasher, crate::alloc::SimAlloc>;
+
 fn eq_answer(a: u32, b: u32) -> bool {
     let mut s = sim();
     match s.eq_mode {
@@ -55,9 +58,18 @@ pub trait KeyT: Hash + Eq + Clone + Send + Sync + 'static + for<'a> From<&'a <Se
     }
     /// Padding / registry consistency of a value read through a reference handed out by hashbrown.
     fn intact(&self) -> bool;
+    /// `EntryRef::key` and `EntryRef::or_insert_with_key` need `Self: Borrow<Self::View>`: key types that embed
+    /// their view override these two hooks (id of the key the entry reports / the call itself).
+    const BORROWS: bool = false;
+    fn eref_key<V: ValT>(_e: &ERef<'_, '_, Self, V>) -> u32 {
+        unreachable!()
+    }
+    fn eref_or_insert_with_key<'a, V: ValT>(_e: ERef<'a, '_, Self, V>, _f: &mut dyn FnMut(u32) -> V) -> &'a mut V {
+        unreachable!()
+    }
 }
 
-pub trait ValT: Clone + PartialEq + Send + Sync + 'static + serde::Serialize + serde::de::DeserializeOwned {
+pub trait ValT: Default + Clone + PartialEq + Send + Sync + 'static + serde::Serialize + serde::de::DeserializeOwned {
     const NAME: &'static str;
     /// false for zero-sized values, which cannot store a payload
     const STORES: bool = true;
@@ -84,7 +96,14 @@ pub struct Key8 {
     pub id: u32,
     pub serial: u32,
 }
+#[repr(transparent)]
 pub struct View8(pub u32);
+impl std::borrow::Borrow<View8> for Key8 {
+    fn borrow(&self) -> &View8 {
+        // SAFETY: the view is a transparent wrapper of the u32 id field
+        unsafe { &*(&self.id as *const u32 as *const View8) }
+    }
+}
 impl Hash for View8 {
     fn hash<H: Hasher>(&self, h: &mut H) {
         tick(Class::Hash);
@@ -127,6 +146,13 @@ impl From<&View8> for Key8 {
     }
 }
 impl KeyT for Key8 {
+    const BORROWS: bool = true;
+    fn eref_key<V: ValT>(e: &ERef<'_, '_, Self, V>) -> u32 {
+        e.key().0
+    }
+    fn eref_or_insert_with_key<'a, V: ValT>(e: ERef<'a, '_, Self, V>, f: &mut dyn FnMut(u32) -> V) -> &'a mut V {
+        e.or_insert_with_key(|q| f(q.0))
+    }
     fn view_id(v: &View8) -> u32 {
         v.0
     }
@@ -180,6 +206,11 @@ impl PartialEq for Val8 {
         self.val == o.val && self.val != NAN_VAL
     }
 }
+impl Default for Val8 {
+    fn default() -> Val8 {
+        <Val8 as ValT>::make(0)
+    }
+}
 impl ValT for Val8 {
     const NAME: &'static str = "Val8";
     const HAS_NAN: bool = true;
@@ -226,6 +257,11 @@ impl Drop for Big200 {
 impl PartialEq for Big200 {
     fn eq(&self, o: &Big200) -> bool {
         self.val == o.val && self.val != NAN_VAL
+    }
+}
+impl Default for Big200 {
+    fn default() -> Big200 {
+        <Big200 as ValT>::make(0)
     }
 }
 impl ValT for Big200 {
@@ -277,6 +313,11 @@ impl PartialEq for Align64 {
         self.val == o.val && self.val != NAN_VAL
     }
 }
+impl Default for Align64 {
+    fn default() -> Align64 {
+        <Align64 as ValT>::make(0)
+    }
+}
 impl ValT for Align64 {
     const NAME: &'static str = "Align64";
     const HAS_NAN: bool = true;
@@ -302,7 +343,14 @@ impl ValT for Align64 {
 // ------------------------------------------------------------------ PodKey / u32: no drop glue at all
 #[derive(Clone, Copy, Debug)]
 pub struct PodKey(pub u32);
+#[repr(transparent)]
 pub struct ViewPod(pub u32);
+impl std::borrow::Borrow<ViewPod> for PodKey {
+    fn borrow(&self) -> &ViewPod {
+        // SAFETY: the view is a transparent wrapper of the u32 id field
+        unsafe { &*(&self.0 as *const u32 as *const ViewPod) }
+    }
+}
 impl Hash for ViewPod {
     fn hash<H: Hasher>(&self, h: &mut H) {
         tick(Class::Hash);
@@ -333,6 +381,13 @@ impl From<&ViewPod> for PodKey {
     }
 }
 impl KeyT for PodKey {
+    const BORROWS: bool = true;
+    fn eref_key<V: ValT>(e: &ERef<'_, '_, Self, V>) -> u32 {
+        e.key().0
+    }
+    fn eref_or_insert_with_key<'a, V: ValT>(e: ERef<'a, '_, Self, V>, f: &mut dyn FnMut(u32) -> V) -> &'a mut V {
+        e.or_insert_with_key(|q| f(q.0))
+    }
     fn view_id(v: &ViewPod) -> u32 {
         v.0
     }
@@ -378,7 +433,7 @@ impl ValT for u32 {
 }
 /// 4-byte value with alignment 1: gives 5- and 6-byte pairs whose data part is not a multiple of the
 /// control alignment (padding between data and control bytes).
-#[derive(Clone, Copy, Debug, PartialEq)]
+#[derive(Clone, Copy, Debug, PartialEq, Default)]
 #[repr(C, packed)]
 pub struct P4(pub u32);
 impl ValT for P4 {
@@ -575,7 +630,14 @@ pub struct Key24 {
     pub serial: u32,
     pub pad: [u64; 2],
 }
+#[repr(transparent)]
 pub struct View24(pub u32);
+impl std::borrow::Borrow<View24> for Key24 {
+    fn borrow(&self) -> &View24 {
+        // SAFETY: the view is a transparent wrapper of the u32 id field
+        unsafe { &*(&self.id as *const u32 as *const View24) }
+    }
+}
 impl Hash for View24 {
     fn hash<H: Hasher>(&self, h: &mut H) {
         tick(Class::Hash);
@@ -618,6 +680,13 @@ impl From<&View24> for Key24 {
     }
 }
 impl KeyT for Key24 {
+    const BORROWS: bool = true;
+    fn eref_key<V: ValT>(e: &ERef<'_, '_, Self, V>) -> u32 {
+        e.key().0
+    }
+    fn eref_or_insert_with_key<'a, V: ValT>(e: ERef<'a, '_, Self, V>, f: &mut dyn FnMut(u32) -> V) -> &'a mut V {
+        e.or_insert_with_key(|q| f(q.0))
+    }
     fn view_id(v: &View24) -> u32 {
         v.0
     }
